@@ -43,7 +43,7 @@ def cases(tier, seed):
         if tier == "thorough" and i % 40 == 0:
             depth = 4
         entry = R.choice(["sample_layer", "sample_layer_filtered", "sample_layer_filtered", "toast_base"])
-        mode = "clobber" if entry == "sample_layer" else R.choice(["update", "update2"])
+        mode = R.choice(["clobber", "clobber", "reclobber"]) if entry == "sample_layer" else R.choice(["update", "update2"])
         if entry == "toast_base":
             mode = R.choice(["clobber", "update"])
         if fmt == "jpg" and mode == "update2":
@@ -122,8 +122,8 @@ def expected_tile(spec, p, cs, samplers_in_order):
     cur = None
     for s in samplers_in_order:
         v = np.asarray(s(lon, lat))
-        if cur is None or spec["mode"] == "clobber":
-            if spec["mode"] != "clobber":
+        if cur is None or spec["mode"] in ("clobber", "reclobber"):
+            if spec["mode"] not in ("clobber", "reclobber"):
                 base = tilegen.undefined_like(tilegen.to_maskable(v), (256, 256))
                 cur = base
             else:
@@ -175,6 +175,19 @@ def run_case(spec, workdir):
     passes = [make_sampler(spec["sampler"], None)] if spec["mode"] != "update2" else [make_sampler(spec["sampler"], "a"), make_sampler(spec["sampler"], "b")]
     if spec["mode"] == "update" and spec["sampler"] in ("f64pos", "f32", "rgba", "u8", "i16"):
         passes = [make_sampler(spec["sampler"], "a")]
+    if spec["mode"] == "reclobber":
+        # an all-sky layer is sampled first; then a sampler that leaves whole tiles undefined clobbers it: nothing of the
+        # first layer may survive (entirely undefined tiles must be absent afterwards)
+        def cap(lon, lat, f=make_sampler(spec["sampler"], None)):
+            v = f(lon, lat)
+            out = lat < 0.9
+            if v.dtype.kind == "f":
+                v[out] = np.nan
+            elif v.ndim == 3 and v.shape[2] == 4:
+                v[out, 3] = 0
+            return v
+
+        passes = [make_sampler(spec["sampler"], None), cap]
     if spec["sampler"] == "rgb":
         passes = passes[:1] if spec["mode"] != "update2" else [make_sampler("rgb"), make_sampler("rgb")]
     results = {}
@@ -366,7 +379,7 @@ def case_cli(spec, workdir, R):
 
 def finish(agg, tier):
     c = agg["counters"]
-    miss = [k for k in ("fmt_npy", "fmt_fits", "fmt_png", "fmt_jpg", "mode_clobber", "mode_update", "mode_update2", "depth_0", "depth_2", "entry_cli", "entry_toast_base") if c.get(k, 0) < 1]
+    miss = [k for k in ("fmt_npy", "fmt_fits", "fmt_png", "fmt_jpg", "mode_clobber", "mode_reclobber", "mode_update", "mode_update2", "depth_0", "depth_2", "entry_cli", "entry_toast_base") if c.get(k, 0) < 1]
     if miss or c.get("tiles_compared", 0) < 200:
         return dict(inconclusive="not reached: %s; tiles %s" % (miss, c.get("tiles_compared")))
     return {}
